@@ -262,7 +262,13 @@ func visitInstr(fr *frame, instr ssa.Instruction) continuation {
 		fr.env[instr] = fr.get(instr.Tuple).(tuple)[instr.Index]
 
 	case *ssa.Slice:
-		fr.env[instr] = slice(fr.get(instr.X), fr.get(instr.Low), fr.get(instr.High), fr.get(instr.Max))
+		ci := func(v ssa.Value) value {
+			if v == nil {
+				return nil
+			}
+			return fr.i.concreteIndex(fr.get(v), "a slice bound")
+		}
+		fr.env[instr] = slice(fr.get(instr.X), ci(instr.Low), ci(instr.High), ci(instr.Max))
 
 	case *ssa.Return:
 		switch len(instr.Results) {
@@ -336,12 +342,12 @@ func visitInstr(fr *frame, instr ssa.Instruction) continuation {
 		*addr = zero(mustDeref(instr.Type()))
 
 	case *ssa.MakeSlice:
-		slice := make([]value, asInt64(fr.get(instr.Cap)))
+		slice := make([]value, asInt64(fr.i.concreteIndex(fr.get(instr.Cap), "a slice capacity")))
 		tElt := instr.Type().Underlying().(*types.Slice).Elem()
 		for i := range slice {
 			slice[i] = zero(tElt)
 		}
-		fr.env[instr] = slice[:asInt64(fr.get(instr.Len))]
+		fr.env[instr] = slice[:asInt64(fr.i.concreteIndex(fr.get(instr.Len), "a slice length"))]
 
 	case *ssa.MakeMap:
 		var reserve int64
@@ -367,7 +373,7 @@ func visitInstr(fr *frame, instr ssa.Instruction) continuation {
 
 	case *ssa.IndexAddr:
 		x := fr.get(instr.X)
-		idx := fr.get(instr.Index)
+		idx := fr.i.concreteIndex(fr.get(instr.Index), "an index")
 		switch x := x.(type) {
 		case []value:
 			fr.env[instr] = &x[asInt64(idx)]
@@ -379,7 +385,7 @@ func visitInstr(fr *frame, instr ssa.Instruction) continuation {
 
 	case *ssa.Index:
 		x := fr.get(instr.X)
-		idx := fr.get(instr.Index)
+		idx := fr.i.concreteIndex(fr.get(instr.Index), "an index")
 
 		switch x := x.(type) {
 		case array:
